@@ -5,6 +5,8 @@ Part A: all patterns up to K body tokens (+ optional tail ~ / ..., optional (?i)
         patching._make_reverse(p, prefix).format(*key) == ref_reverse(p, prefix, key) for 5 prefixes,
         reverse of the negated rule gives back the plain rule, ACL _make_reverse is an involution,
         ordering reverse_regexp recognises exactly the negated rows.
+Part R: patterns whose first word is, begins with or contains a vendor's negation word (no / notify / no-a / NO / xno ...)
+        for all five negation words: reverse template and reverse of the negated rule against the reference.
 Part B: every rule line of every shipped .rul/.order/.deploy (rendered for a set of hardware views):
         a row synthesised from the line matches with the expected key; near-miss mutations do not.
 """
@@ -74,8 +76,44 @@ def rows(w):
     return out + extra
 
 
+def negation_edge_patterns():
+    """patterns whose first word is, begins with, or is glued to a vendor's negation word"""
+    out = []
+    for prefix in PREFIXES:
+        for first in (prefix, prefix + "x", prefix + "-a", prefix.upper(), "x" + prefix):
+            out.append(first)
+            for body in (["a"], ["*"], ["a", "*"], ["*", "~"], ["a", "~"], [prefix], [prefix, "a"]):
+                out.append(" ".join([first] + body))
+    return sorted(set(out))
+
+
+def run_r(block, ctx):
+    from annet.annlib.rbparser import syntax
+    from mc.ref import regexgen
+    pats = negation_edge_patterns()[block["i"]::4]
+    for p in pats:
+        s = regexgen.synth_row(p)
+        ctx.evals += 1
+        ctx.states += 1
+        if s is None:
+            ctx.outcomes["R:not-synthesisable"] += 1
+            continue
+        text, key = s
+        rx = syntax.compile_row_regexp(p)
+        check_pair(p, text, rx, ctx.violation)
+        if key is None:
+            continue
+        ctx.nontrivial += 1
+        check_reverse(p, key, ctx.violation)
+        ctx.evals += 2 * len(PREFIXES)
+        ctx.extra["reverse_templates_checked"] += 2 * len(PREFIXES)
+        ctx.outcomes["R:reverse-checked"] += 1
+    ctx.sample({"part": "R", "patterns": pats[:6]})
+
+
 def blocks(tier, seed):
     bl = [{"part": "A", "i": i} for i in range(NB)]
+    bl += [{"part": "R", "i": i} for i in range(4)]
     bl += [{"part": "B", "i": i} for i in range(16)]
     return bl
 
@@ -147,6 +185,8 @@ def check_acl_ordering_reverse(p, rws, ctx):
 def run_block(block, ctx):
     if block["part"] == "A":
         run_a(block, ctx)
+    elif block["part"] == "R":
+        run_r(block, ctx)
     else:
         run_b(block, ctx)
 
